@@ -12,7 +12,7 @@ EXTRA_FILES = {
             'dbus/dbus-server-debug-pipe.c', 'bus/config-parser.c', 'dbus/dbus-sysdeps-unix.c'],
     'C06': ['bus/config-parser-common.c', 'dbus/dbus-sysdeps-unix.c', 'dbus/dbus-credentials.c'],
     'C11': ['dbus/dbus-connection.c'],
-    'C05': ['dbus/dbus-message.c'],
+    'C05': ['dbus/dbus-message.c', 'dbus/dbus-transport-socket.c'],   # queued messages leave through the socket transport
     'C19': ['bus/activation-helper-bin.c', 'bus/config-parser-trivial.c', 'dbus/dbus-mainloop.c', 'dbus/dbus-timeout.c',
             'bus/bus.c'],                                                  # the activation timeout comes from the context
     'C15': ['dbus/dbus-auth.c', 'dbus/dbus-transport.c'],                  # where descriptor passing is negotiated and asked about
